@@ -861,3 +861,57 @@ package sse
 //@   ensures default_limit_otherwise: !(cfg != nil && cfg.MaxEventSize > 0) ==> scmax(result.inputScanner) == 0
 //@   ensures parser_is_new: fresh(result) && fresh(result.fieldScanner)
 //@   ensures parser_ready: result != nil && result.inputScanner != nil && result.fieldScanner != nil && !result.fieldScanner.keepComments && result.fieldScanner.err == nil && !scstarted(result.inputScanner)
+
+// ---------------------------------------------------------------------------------------------------------
+// joe.go: the provider loop (C03, C04, C06, C17). All state is owned by the goroutine running Joe.start; the other
+// goroutines talk to it over unbuffered channels. One loop iteration = one operation; "for all interleavings" becomes
+// "for every sequence of received operations" (loop invariant + one step contract per select case).
+// Channel message invariants: chanrecv is assumed at the receive, chansend is proved at every send.
+// ---------------------------------------------------------------------------------------------------------
+
+//@ chanrecv Joe.subscription v handed_over_once: v.done != nil && allocated(v.done) && chcap(v.done) == 1 && !chclosed(v.done) && chbuffered(v.done) == 0 && !has(j.subscribers, v.done) && v.done != j.closed
+//@ chansend Joe.subscription v fresh_buffered_channel: v.done != nil && fresh(v.done) && chcap(v.done) == 1 && !chclosed(v.done) && chbuffered(v.done) == 0
+//@ chanrecv Joe.message v reply_channel_and_topics: v.replayerErr != nil && chcap(v.replayerErr) == 1 && !chclosed(v.replayerErr) && chbuffered(v.replayerErr) == 0 && !has(j.subscribers, v.replayerErr) && v.replayerErr != j.closed && len(v.topics) > 0
+//@ chansend Joe.message v fresh_reply_channel_and_topics: v.replayerErr != nil && fresh(v.replayerErr) && chcap(v.replayerErr) == 1 && !chclosed(v.replayerErr) && chbuffered(v.replayerErr) == 0 && len(v.topics) > 0
+
+//@ pure subsok(j) = j.subscribers != nil && allocated(j.subscribers) &&
+//@     all(d, "ref", has(j.subscribers, d) ==> d != nil && !chclosed(d) && chbuffered(d) == 0 && chcap(d) == 1 && d != j.closed)
+
+//@ func Joe.removeSubscriber
+//@   requires j != nil && j.subscribers != nil && sub != nil
+//@   requires not_closed_yet: !chclosed(sub)
+//@   modifies mapcell(j.subscribers), chancell(sub)
+//@   ensures removed: !has(j.subscribers, sub)
+//@   ensures others_untouched: all(d, "ref", d != sub ==> has(j.subscribers, d) == old(has(j.subscribers, d)) && j.subscribers[d] == old(j.subscribers[d]))
+//@   ensures closed_once: chclosed(sub) && chcap(sub) == old(chcap(sub)) && chbuffered(sub) == old(chbuffered(sub))
+
+//@ func Joe.closeSubscribers
+//@   requires j != nil && subsok(j)
+//@   modifies mapcell(j.subscribers)
+//@   ensures everybody_released: all(d, "ref", !has(j.subscribers, d))
+//@   ensures every_subscriber_closed: all(d, "ref", old(has(j.subscribers, d)) ==> chclosed(d))
+//@   ensures makes_no_calls: ncalls() == old(ncalls())
+//@   invariant 0 still_ok: subsok(j)
+//@   invariant 0 visited_are_gone_and_closed: all(d, "ref", visited(0, d) ==> !has(j.subscribers, d) && chclosed(d))
+//@   invariant 0 only_subscribers_closed: all(d, "ref", old(has(j.subscribers, d)) ==> has(j.subscribers, d) || chclosed(d))
+//@   invariant 0 shrinking: all(d, "ref", has(j.subscribers, d) ==> old(has(j.subscribers, d)))
+//@   invariant 0 makes_no_calls: ncalls() == old(ncalls())
+
+//@ func handleReplayerPanic
+//@   inline
+
+//@ func tryPut
+//@   maypanic
+//@   requires replay != nil && *replay != nil
+//@   modifies *replay
+//@   ensures put_called_once: ncalls() == old(ncalls()) + 1 && iscall(old(ncalls()), "Put") && crecv(old(ncalls())) == old(*replay) && carg(old(ncalls()), "Put", 0) == msg.message && carg(old(ncalls()), "Put", 1) == msg.topics
+//@   ensures panic_disables_the_replayer: *replay == nil ==> m == nil && hasdyn(err, "replayPanic")
+//@   ensures normal_return_passes_results: *replay != nil ==> *replay == old(*replay) && m == cret(old(ncalls()), "Put", 0) && err == cret(old(ncalls()), "Put", 1)
+
+//@ func tryReplay
+//@   maypanic
+//@   requires replay != nil && *replay != nil
+//@   modifies *replay
+//@   ensures replay_called_once: ncalls() == old(ncalls()) + 1 && iscall(old(ncalls()), "Replay") && crecv(old(ncalls())) == old(*replay) && carg(old(ncalls()), "Replay", 0) == sub
+//@   ensures panic_disables_the_replayer: *replay == nil ==> hasdyn(err, "replayPanic")
+//@   ensures normal_return_passes_result: *replay != nil ==> *replay == old(*replay) && err == cret(old(ncalls()), "Replay", 0)
